@@ -682,6 +682,56 @@ pub fn run(tier: Tier) -> i32 {
             }
         }
     }
+    // the life cycle of an alias in every combination of spellings: defined, used, unbound,
+    // bound to another register, used again, unbound, bound a third time - each use encodes the
+    // register bound at that point; a use between .undef and the next .def fails the build
+    let mut n_life_cycles = 0u64;
+    {
+        let spellings = ["temp_q", "TEMP_Q", "Temp_q", "tEMP_Q"];
+        for s_def in spellings {
+            for s_use in spellings {
+                for s_undef in spellings {
+                    for (mn, regs) in [("mov", [16u16, 17, 3]), ("ldi", [16, 31, 20])] {
+                        let use_line = |r: u16| -> (String, [u8; 2]) {
+                            if mn == "mov" {
+                                let w: u16 = 0x2c00 | (r & 0x1f) << 4; // mov Rd, r0
+                                (format!("mov {}, r0\n", s_use), w.to_le_bytes())
+                            } else {
+                                let w: u16 = 0xe000 | ((0xa5u16 & 0xf0) << 4) | ((r - 16) << 4) | (0xa5u16 & 0x0f); // ldi Rd, 0xa5
+                                (format!("ldi {}, 0xa5\n", s_use), w.to_le_bytes())
+                            }
+                        };
+                        let mut src = String::new();
+                        let mut want: Vec<u8> = vec![];
+                        for (i, r) in regs.iter().enumerate() {
+                            if i > 0 {
+                                src.push_str(&format!(".undef {}\n", s_undef));
+                            }
+                            src.push_str(&format!(".def {} = r{}\n", s_def, r));
+                            let (l, w) = use_line(*r);
+                            src.push_str(&l);
+                            want.extend(w);
+                            src.push_str(&l);
+                            want.extend(w);
+                        }
+                        let dead = format!(".def {} = r{}\n{}.undef {}\n{}", s_def, regs[0], use_line(regs[0]).0, s_undef, use_line(regs[0]).0);
+                        let dead_then_rebound = format!("{}.def {} = r{}\n", dead, s_def, regs[1]);
+                        n_life_cycles += 3;
+                        let o = sut::build_str(&src);
+                        if !matches!(&o, Outcome::Ok(b) if b.code == want) {
+                            rep.violation(&format!("C10/alias-life-cycle/wrong-binding/mnem={}", mn), || format!("`{}` bound to r{}, r{}, r{} in turn (defined as {}, used as {}, unbound as {}): expected {} but {}", s_def, regs[0], regs[1], regs[2], s_def, s_use, s_undef, sut::hex(&want), o.brief()), || json!({"kind": "build_str", "source": src, "expected": {"result": "ok", "code": sut::hex(&want)}, "observed": o.to_json()}));
+                        }
+                        for (what, p) in [("use-after-undef", &dead), ("use-after-undef-before-the-next-def", &dead_then_rebound)] {
+                            let o = sut::build_str(p);
+                            if let Outcome::Ok(b) = &o {
+                                rep.violation(&format!("C10/alias-life-cycle/accepted/{}/mnem={}", what, mn), || format!("the alias (defined as {}, used as {}, unbound as {}) is used after its .undef, the build must fail but gives {}", s_def, s_use, s_undef, sut::hex(&b.code)), || json!({"kind": "build_str", "source": p, "expected": {"result": "err (any text)"}, "observed": o.to_json()}));
+                            }
+                        }
+                    }
+                }
+            }
+        }
+    }
     rep.guard(n_alias_pairs.load(Ordering::Relaxed) > 5000, "fewer than 5000 alias/register pairs");
     rep.guard(ex.states > 200, "fewer than 200 model states");
     rep.guard(n_ok.load(Ordering::Relaxed) > 1000 && n_err.load(Ordering::Relaxed) > 1000, "need both Ok and Err outcomes");
@@ -694,6 +744,7 @@ pub fn run(tier: Tier) -> i32 {
     let coverage = cov(json!({
         "alias_versus_register_pairs": n_alias_pairs.load(Ordering::Relaxed),
         "binding_inside_macro_bodies_programs": n_in_macro,
+        "alias_life_cycle_programs": n_life_cycles,
         "names_inside_expressions_programs": n_undef_expr.load(Ordering::Relaxed),
         "states": ex.states,
         "transitions": ex.transitions,
